@@ -102,7 +102,11 @@ pub async fn mk_end(side: Side, cert: dtls::Certificate, net_tx: NetTx, cfg: &En
         Side::A => (addr(ADDR_A), addr(ADDR_B)),
         Side::B => (addr(ADDR_B), addr(ADDR_A)),
     };
-    let is_client = side == Side::A;
+    mk_end_at(side, local, remote, side == Side::A, cert, net_tx, cfg).await
+}
+
+/// An endpoint at explicit addresses and with an explicit DTLS role (used for attacker endpoints).
+pub async fn mk_end_at(side: Side, local: SocketAddr, remote: SocketAddr, is_client: bool, cert: dtls::Certificate, net_tx: NetTx, cfg: &EndCfg) -> End {
     let sock = IceSocketWrapper::Verif(Arc::new(VerifSocket { local, tx: net_tx }));
     let (stx, srx) = watch::channel(Some(sock));
     let conn = IceConn::new(srx, remote, None);
